@@ -8,6 +8,7 @@ import subprocess
 ROOT = os.path.dirname(os.path.dirname(os.path.abspath(__file__)))
 # subject prefix of the fix: commit -> (properties, what failed before the repair, how the checks showed it)
 FIXED = {
+    'fix: reject a NaN or infinite compaction ratio': (['C20'], 'Validate accepted NaN/+Inf CompactionRatio, SaveManifest then failed in json.Marshal after creating the directory', 'C20 field product: validate mismatch (nan), save mismatch (pinf)'),
     'fix: hand the WAL sequence counter over': (['C01', 'C08'], 'a put after flush re-used sequence numbers from 1: stale read of the pre-flush value, storage_last_sequence fell', 'C01/C08 replay: get/seq mismatch at the first write after a flush'),
     'fix: give every memtable entry of a batch': (['C01', 'C08', 'C03'], 'memtable numbered batch entries start+i while the log consumed one number: a put right after an n-key commit read stale until restart', 'C01/C08 replay: seq mismatch after commit, get mismatch on the following put'),
     'fix: merge compaction inputs newest-first': (['C12', 'C01'], 'oldest level-0 input won the merge: overwritten values and deleted keys came back after compaction + reopen without logs', 'C01/C12 replay with retire+reopen'),
